@@ -219,7 +219,7 @@ func Scan(src string, entities map[string]string) ([]Event, error) {
 				return nil, fmt.Errorf("unterminated doctype")
 			}
 			flush()
-			evs = append(evs, Event{Kind: "doctype", Data: strings.Join(strings.Fields(src[i+2:j]), " ")})
+			evs = append(evs, Event{Kind: "doctype", Data: canonDoctype(src[i+2 : j])})
 			i = j + 1
 		case strings.HasPrefix(src[i:], "</"):
 			j := strings.IndexByte(src[i:], '>')
@@ -304,6 +304,39 @@ func Collapse(s string) string {
 			sb.WriteByte(c)
 			inWS = false
 		}
+	}
+	return sb.String()
+}
+
+// canonDoctype collapses whitespace outside the quoted literals of a doctype declaration (and drops it next
+// to the brackets and angle brackets of the internal subset); literals are kept byte for byte.
+func canonDoctype(d string) string {
+	var sb strings.Builder
+	pendingWS := false
+	last := byte(0)
+	for i := 0; i < len(d); i++ {
+		c := d[i]
+		if c == ' ' || c == '\t' || c == '\n' || c == '\r' {
+			pendingWS = true
+			continue
+		}
+		if pendingWS && sb.Len() > 0 && last != '[' && last != '>' && c != ']' && c != '>' && c != '[' {
+			sb.WriteByte(' ')
+		}
+		pendingWS = false
+		if c == '"' || c == '\'' {
+			k := strings.IndexByte(d[i+1:], c)
+			if k < 0 {
+				sb.WriteString(d[i:])
+				break
+			}
+			sb.WriteString(d[i : i+1+k+1])
+			i += k + 1
+			last = c
+			continue
+		}
+		sb.WriteByte(c)
+		last = c
 	}
 	return sb.String()
 }
